@@ -25,8 +25,13 @@ CONSTANTS
     Prog,          \* selecting thread: sequence of [op |-> "add", m |-> m] / [op |-> "select", m |-> 0]
     Cap,           \* capacity of the events buffer (Events::with_capacity)
     DrainOne,      \* TRUE: read one message per reported member (wrong design)
-    LevelBlindAdd  \* TRUE: registration does not report readiness that already exists (a kernel
+    LevelBlindAdd, \* TRUE: registration does not report readiness that already exists (a kernel
                    \* that behaved so would break the code; shows the premise is used)
+    Crashers,      \* members whose sender lives in a process that may be killed between two system calls
+    StopAfterTorn, \* TRUE: after a torn message (its sender died mid-way) the member is not drained any
+                   \* further in this select (wrong: the hang-up edge is already consumed); FALSE: the code
+    SendersFirst   \* TRUE: explore only behaviours in which the selecting thread starts after every sender
+                   \* has finished (bulk already queued when the set first looks)
 
 VARIABLES
     mq,        \* mq[m]: queued first packets of member m: sequence of [x, n]  (x = message index)
@@ -41,13 +46,16 @@ VARIABLES
     pc,        \* selecting thread: "idle" | "inwait" | "drain" | "infollow" | "done"
     pi,        \* position in Prog
     fm,        \* message index being reassembled (2-packet message)
+    dead,      \* members whose sender process was killed
+    dedOpen,   \* dedOpen[m]: the sender's end of the dedicated socket of m's current message is open
     results,   \* events collected by the select call in progress
     log,       \* all events returned so far: [t |-> "msg"|"closed", id, x]
     selects,   \* per finished select call: number of events it returned
     sched      \* history of (actor, system call)
 
-vars == <<mq, dq, open, spc, cur, inset, ids, nextId, ready, batch, pc, pi, fm, results, log, selects, sched>>
-View == <<mq, dq, open, spc, cur, inset, ids, nextId, ready, batch, pc, pi, fm, results, log>>
+vars == <<mq, dq, open, spc, cur, inset, ids, nextId, ready, batch, pc, pi, fm, results, log, selects, sched,
+          dead, dedOpen>>
+View == <<mq, dq, open, spc, cur, inset, ids, nextId, ready, batch, pc, pi, fm, results, log, dead, dedOpen>>
 
 Init ==
     /\ mq = [m \in Members |-> <<>>] /\ dq = [m \in Members |-> <<>>]
@@ -57,6 +65,7 @@ Init ==
     /\ inset = {} /\ ids = [m \in Members |-> 0] /\ nextId = 0
     /\ ready = <<>> /\ batch = <<>> /\ pc = "idle" /\ pi = 1 /\ fm = 0
     /\ results = <<>> /\ log = <<>> /\ selects = <<>> /\ sched = <<>>
+    /\ dead = {} /\ dedOpen = [m \in Members |-> FALSE]
 
 Step(a, k) == sched' = Append(sched, [a |-> a, k |-> k])
 InReady(m) == \E i \in 1..Len(ready) : ready[i] = m
@@ -66,7 +75,7 @@ Without(seq, m) == SelectSeq(seq, LAMBDA x : x # m)
 -----------------------------------------------------------------------------
 (* Senders *)
 
-SUnch == UNCHANGED <<inset, ids, nextId, batch, pc, pi, fm, results, log, selects>>
+SUnch == UNCHANGED <<inset, ids, nextId, batch, pc, pi, fm, results, log, selects, dead>>
 
 Advance(m) ==
     IF cur[m] < Len(MMsgs[m])
@@ -79,11 +88,12 @@ SendSingle(m) ==
     /\ ready' = Arm(m)
     /\ Advance(m)
     /\ Step(m, "sendmsg")
-    /\ UNCHANGED <<dq, open>> /\ SUnch
+    /\ UNCHANGED <<dq, open>> /\ UNCHANGED dedOpen /\ SUnch
 
 MkDed(m) ==
     /\ spc[m] = "idle" /\ MMsgs[m][cur[m]] = 2
     /\ spc' = [spc EXCEPT ![m] = "first"]
+    /\ dedOpen' = [dedOpen EXCEPT ![m] = TRUE]
     /\ Step(m, "socketpair")
     /\ UNCHANGED <<mq, dq, open, cur, ready>> /\ SUnch
 
@@ -93,22 +103,23 @@ SendFirst(m) ==
     /\ ready' = Arm(m)
     /\ spc' = [spc EXCEPT ![m] = "follow"]
     /\ Step(m, "sendmsg")
-    /\ UNCHANGED <<dq, open, cur>> /\ SUnch
+    /\ UNCHANGED <<dq, open, cur>> /\ UNCHANGED dedOpen /\ SUnch
 
 SendFollow(m) ==
     /\ spc[m] = "follow"
     /\ dq' = [dq EXCEPT ![m] = Append(@, cur[m])]
     /\ spc' = [spc EXCEPT ![m] = "c1"]
     /\ Step(m, "send")
-    /\ UNCHANGED <<mq, open, cur, ready>> /\ SUnch
+    /\ UNCHANGED <<mq, open, cur, ready>> /\ UNCHANGED dedOpen /\ SUnch
 
 CloseDed1(m) ==
     /\ spc[m] = "c1" /\ spc' = [spc EXCEPT ![m] = "c2"]
     /\ Step(m, "close")
-    /\ UNCHANGED <<mq, dq, open, cur, ready>> /\ SUnch
+    /\ UNCHANGED <<mq, dq, open, cur, ready>> /\ UNCHANGED dedOpen /\ SUnch
 
 CloseDed2(m) ==
     /\ spc[m] = "c2" /\ Advance(m)
+    /\ dedOpen' = [dedOpen EXCEPT ![m] = FALSE]
     /\ Step(m, "close")
     /\ UNCHANGED <<mq, dq, open, ready>> /\ SUnch
 
@@ -118,7 +129,16 @@ DropSender(m) ==
     /\ open' = [open EXCEPT ![m] = FALSE]
     /\ ready' = Arm(m)                                  \* hang-up edge
     /\ Step(m, "close")
-    /\ UNCHANGED <<mq, dq, cur>> /\ SUnch
+    /\ UNCHANGED <<mq, dq, cur>> /\ UNCHANGED dedOpen /\ SUnch
+
+\* the sender's process is killed between two system calls: every descriptor it holds is closed
+Kill(m) ==
+    /\ m \in Crashers /\ dead = {} /\ spc[m] \notin {"done", "dead"}
+    /\ dead' = {m} /\ spc' = [spc EXCEPT ![m] = "dead"]
+    /\ open' = [open EXCEPT ![m] = FALSE] /\ dedOpen' = [dedOpen EXCEPT ![m] = FALSE]
+    /\ ready' = Arm(m)
+    /\ Step(m, "kill")
+    /\ UNCHANGED <<mq, dq, cur, inset, ids, nextId, batch, pc, pi, fm, results, log, selects>>
 
 SenderStep(m) == SendSingle(m) \/ MkDed(m) \/ SendFirst(m) \/ SendFollow(m) \/ CloseDed1(m)
                  \/ CloseDed2(m) \/ DropSender(m)
@@ -126,7 +146,7 @@ SenderStep(m) == SendSingle(m) \/ MkDed(m) \/ SendFirst(m) \/ SendFollow(m) \/ C
 -----------------------------------------------------------------------------
 (* The selecting thread *)
 
-RUnch == UNCHANGED <<open, spc, cur>>
+RUnch == UNCHANGED <<open, spc, cur, dead, dedOpen>>
 
 NextOp == IF pi <= Len(Prog) THEN Prog[pi] ELSE [op |-> "select", m |-> 0]
 
@@ -210,6 +230,15 @@ DrainFollow ==
     /\ Step(0, "recv")
     /\ UNCHANGED <<mq, inset, ids, nextId, ready, pi, fm, log, selects>> /\ RUnch
 
+\* the follow-up never comes: the sender died after the first fragment. The torn message is not
+\* reported; the member is drained further (the code) or left (StopAfterTorn)
+DrainFollowTorn ==
+    /\ pc = "infollow" /\ dq[Head(batch)] = <<>> /\ ~dedOpen[Head(batch)] /\ Head(batch) \in dead
+    /\ batch' = IF StopAfterTorn THEN Tail(batch) ELSE batch
+    /\ pc' = "drain"
+    /\ Step(0, "recv")
+    /\ UNCHANGED <<mq, dq, inset, ids, nextId, ready, pi, fm, results, log, selects>> /\ RUnch
+
 \* select() returns
 SelectRet ==
     /\ pc = "drain" /\ batch = <<>>
@@ -219,11 +248,13 @@ SelectRet ==
     /\ sched' = sched
     /\ UNCHANGED <<mq, dq, inset, ids, nextId, ready, batch, pi, fm>> /\ RUnch
 
-SelectorStep == Add \/ WaitCall \/ WaitWake \/ DrainAttempt \/ DrainFollow \/ SelectRet
-Next == (\E m \in Members : SenderStep(m)) \/ SelectorStep \/ Intr
+SelectorStep == Add \/ WaitCall \/ WaitWake \/ DrainAttempt \/ DrainFollow \/ DrainFollowTorn \/ SelectRet
+SendersDone == \A m \in Members : spc[m] \in {"done", "dead"}
+Next == \/ \E m \in Members : SenderStep(m) \/ Kill(m)
+        \/ (SendersFirst => SendersDone) /\ (SelectorStep \/ Intr)
 
 Spec == Init /\ [][Next]_vars
-FairSpec == Spec /\ WF_vars(SelectorStep) /\ \A m \in Members : WF_vars(SenderStep(m))
+FairSpec == Spec /\ WF_vars((SendersFirst => SendersDone) /\ SelectorStep) /\ \A m \in Members : WF_vars(SenderStep(m))
 
 -----------------------------------------------------------------------------
 (* Properties *)
@@ -236,7 +267,7 @@ EachOnceInOrder ==
        LET ev == Events(m)
        IN \A i \in 1..Len(ev) :
              IF ev[i].t = "msg" THEN ev[i].x = i
-             ELSE i = Len(ev) /\ i = Len(MMsgs[m]) + 1
+             ELSE i = Len(ev) /\ (m \in dead \/ i = Len(MMsgs[m]) + 1)
 
 \* closed is reported only when the channel really is disconnected
 ClosedOnlyWhenDisconnected ==
@@ -257,7 +288,9 @@ ETInv ==
 NoEmptySelect == \A i \in 1..Len(selects) : selects[i] > 0 \/ TRUE
 
 AllReported ==
-    \A m \in Members : ids[m] # 0 => Len(Events(m)) = Len(MMsgs[m]) + 1
+    \A m \in Members : ids[m] # 0 =>
+        IF m \in dead THEN (\E i \in 1..Len(Events(m)) : Events(m)[i].t = "closed")
+        ELSE Len(Events(m)) = Len(MMsgs[m]) + 1
 
 \* liveness: select does not go on blocking while something is pending; everything is reported
 Completes == <>(pc = "idle" /\ pi > Len(Prog) /\ inset = {} /\ AllReported)
